@@ -64,3 +64,12 @@ def _intbc_jobs(tier):
 INTBC = dict(module='c03', rules={'B1', 'B2'}, jobs=_intbc_jobs, global_rules=False,
              why="integer-dtype cell values (whole-number data are an int array in one unit system / on one grid and floats in another) "
                  "are not truncated in the ghost layer")
+
+
+def _purity_jobs(tier):
+    return [(c, tier) for c in MESH_CLASSES]
+
+
+PURITY = dict(module='c15', rules={'Z1', 'Z6'}, jobs=_purity_jobs, global_rules=False,
+              why="builders leave their arguments and the mesh as given and return the same values when called again: the operators "
+                  "assembled for a solve are the ones analysed, whatever was assembled before")
